@@ -192,23 +192,24 @@ def _(c):
         # own value (default table or schema default) is grow-only for capacity settings
         + [_capacity_clause(n) for n in ALL_CAPACITY_NAMES],
         # ---- one iteration of the write loop, for an arbitrary entry --------------------------------------
+        # (`_item` is the element the loop is at, whatever the code calls its loop variable)
         each=[
             (
                 "reads_then_at_most_one_set",
-                lambda cfg, fx: gets_issued(fx) == [{"configId": cfg.config_id}]
+                lambda _item, fx: gets_issued(fx) == [{"configId": _item.config_id}]
                 and len(sets_issued(fx)) <= 1
-                and all(s == {"configId": cfg.config_id, "value": cfg.value} for s in sets_issued(fx)),
+                and all(s == {"configId": _item.config_id, "value": _item.value} for s in sets_issued(fx)),
             ),
             (
                 "grow_only_never_lowers",
-                lambda cfg, fx, raised: implies(
-                    len(answers(fx)) >= 1 and skipped_as_large_enough(cfg, fx), sets_issued(fx) == []
+                lambda _item, fx, raised: implies(
+                    len(answers(fx)) >= 1 and skipped_as_large_enough(_item, fx), sets_issued(fx) == []
                 ),
             ),
             (
                 "otherwise_written",
-                lambda cfg, fx, raised: implies(
-                    raised is None and not skipped_as_large_enough(cfg, fx), len(sets_issued(fx)) == 1
+                lambda _item, fx, raised: implies(
+                    raised is None and not skipped_as_large_enough(_item, fx), len(sets_issued(fx)) == 1
                 ),
             ),
         ],
